@@ -32,8 +32,6 @@ TRUSTED_EXTRA = ['Python 3.12 shlex is MODELLED (Model/Tok.v lex_go), not assume
                  'through TokenStream on every run']
 
 KF1 = 'KF-C09-1'
-KF3 = 'KF-C09-3'
-KF4 = 'KF-C09-4'
 
 EXOTIC = '\x0b\x0c\x1c\x1d\x1e\x1f\x85\xa0\u1680\u2000\u2003\u200a\u2028\u2029\u202f\u205f\u3000'
 SHLEX_WS = ' \t\r\n'
@@ -449,7 +447,7 @@ class Impl:
             for k, op in enumerate(ops):
                 if self.sticky_at is None and ts._lexer.state is None and ts.head is None and \
                         ts.look_ahead_state.name == 'NULL' and ts.remaining_source.strip(' \t\r\n'):
-                    self.sticky_at = k      # KF-C09-3: the lexer is "past end of file" although unread source remains
+                    self.sticky_at = k      # (FIX-C09-3, repaired) the lexer is "past end of file" although unread source remains
                 if op == 'tok':
                     h = ts.head
                     ts.consume()
@@ -1112,20 +1110,6 @@ def finding_of(info):
                 return o[2] == py_subst(''.join(l + '\n' for l in g[3]), env_d)
             return o[2] == doc_value(g[2], env_d) or (allow_kf1 and is_mixed(g[2]) and o[2] == first_char_rule(g[2], env_d))
 
-        # the first operation whose result is not the documented one
-        n_ok = 0
-        for g, o in zip(segs, pobs):
-            if not doc_ok(g, o, False):
-                break
-            n_ok += 1
-        if n_ok < len(segs):
-            sticky = info.get('lexer_past_eof_before_op')
-            if sticky is not None and sticky <= n_ok:
-                return KF3
-            if n_ok >= 1 and segs[n_ok - 1][0] == 'eol':
-                txt = segs[n_ok - 1][2]
-                if txt and not txt.strip() and any(c not in SHLEX_WS for c in txt):
-                    return KF4
         if k == 'script' and ut is None and pexn is None and len(pobs) == len(segs) and all(doc_ok(g, o, True) for g, o in zip(segs, pobs)):
             return KF1 if any(not doc_ok(g, o, False) for g, o in zip(segs, pobs)) else None
         if k == 'script' and ut is not None and pexn is not None and len(pobs) == len(segs) and all(doc_ok(g, o, True) for g, o in zip(segs, pobs)):
@@ -1194,11 +1178,18 @@ def _entry(i, g):
 
 # tokens AFTER raw text with a lone quote in its first word, in the same stream (seeded C09-m6)
 CORPUS_DIR = [
+    (_D_OPEN + _entry(0, ('eol', ' ', '\xa0', '  ')) + _entry(1, ('str', True, _t('N', 'x'), '\n')) + _D_CLOSE, None),     # FIX-C09-4 repro k4
     (_D_OPEN + _entry(0, ('eol', ' ', "it's", '  ')) + _entry(1, ('str', True, _t('N', 'hello'), '\n')) + _D_CLOSE, None),
     (_D_OPEN + _entry(0, ('here', 'EOF', '', ["it's", 'don"t'], '  ')) + _entry(1, ('eol', ' ', 'x @[X]@', '')) + _D_CLOSE, None),
     (_D_OPEN + _entry(0, ('str', True, _t('S', '@[L]@'), '\n  ')) + _entry(1, None)[:3], ([], "'", 'abc')),
 ]
 CORPUS_SCRIPT = [
+    # FIX-C09-3 (repaired a75c6db): the quote of a here-document line is closed by the LAST character of the source
+    ('', [('here', 'E', '', ["'"], ''), ('tok', _t('N', 'b'), '\n'), ('tok', _t('H', ''), '')], None),
+    ('', [('eol', ' ', "it's", ''), ('str', True, _t('N', 'b'), ' '), ('tok', _t('N', 'x'), ' '), ('tok', _t('H', ''), '')], None),
+    # FIX-C09-4 (repaired fbeae85): a :> text that is blank for Python but is a word for the lexer
+    ('', [('eol', ' ', '\xa0', ''), ('tok', _t('N', 'file'), ' '), ('str', True, _t('N', 'x'), '')], None),
+    ('', [('eol', ' ', '\x0b\x0c', ' '), ('str', False, _t('N', 'b'), '')], None),
     ('', [('tok', _t('N', 'file'), ' '), ('str', False, _t('N', 'a'), ' '), ('tok', _t('N', '='), ' '), ('eol', ' ', "it's", '  '),
           ('tok', _t('N', 'file'), ' '), ('str', False, _t('N', 'b'), ' '), ('tok', _t('N', '='), ' '), ('str', True, _t('N', 'hello'), '\n'),
           ('tok', _t('N', '}'), '')], None),
